@@ -26,7 +26,17 @@ Oracle, evaluated on every input (each API shape gets its own freshly built inpu
  (d) ranges        on an accepted input an independent table of the documented ranges / enumerations /
                    cross-field constraints holds on the normalised output (NaN fails every range)
  (e) runnable      for every distinct accepted normalised config, two real turns on the worlds W0/W1/W2
-                   complete without raising (plans carry scripted deltas so that T4/apply do work too)
+                   complete without raising (plans carry scripted deltas so that T4/apply do work too);
+                   thorough: the configs reached by sibling pairs and by (single x version); configs reached
+                   only by the reduced-alphabet non-sibling pairs are checked for (a)-(d) only
+
+Signatures (every violation is minimised by dropping deviations first):
+  a:raises:<ExcType>:<key path | nonstr-key | unknown-key | nearmiss-key | root>
+  b:mutates-input:<top-level key of the mutated container | <root>>
+  c:<shape>:raises-instead-of-returning     c:disagree:<shape>:<verdict|messages|normalized|warnings|exit-code|first-line>
+  c:cli:<form>:<traceback|exit-code|first-line|messages|warnings|normalized|stdout-not-json>
+  d:range:<key path or cross-field constraint>:<nan|out-of-range>
+  e:engine-raises:<default | key path(s) | nonstr-key@<level> | unknown-key@<level> | <level>.*>
 """
 from __future__ import annotations
 
